@@ -2,6 +2,7 @@ package fragswarm
 
 import (
 	"context"
+	"sync"
 
 	"go.brendoncarroll.net/p2p"
 	"go.brendoncarroll.net/p2p/s/swarmutil"
@@ -24,7 +25,12 @@ type vInner struct {
 	sent *[]vSent
 }
 
+// the code under test tells fragments from several goroutines (errgroup)
+var vInnerMu sync.Mutex
+
 func (s vInner) Tell(ctx context.Context, dst vAddr, v p2p.IOVec) error {
+	vInnerMu.Lock()
+	defer vInnerMu.Unlock()
 	*s.sent = append(*s.sent, vSent{dst: dst, data: p2p.VecBytes(nil, v)})
 	return nil
 }
